@@ -438,7 +438,7 @@ theorem tameRun_complete {env : List Entry} {l out : List PTok} (h : Tame env l 
               · have hs := RsslVerif.Lemmas.MacroTerm.readArgs_spec e'.m rest rest' args hra
                 simp only [hfn, if_true] at hs
                 obtain ⟨b, tail, htrim, _, _⟩ := hs
-                rw [startsParen_of_trimStart rest b tail htrim] at hsp
+                rw [startsParen_of_trimStartAll rest b tail htrim] at hsp
                 cases hsp
           · cases hsel
     | _ => simp only [hkb, if_true, hrest]
